@@ -22,16 +22,18 @@ import (
 
 	"github.com/lidofinance/dc4bc/airgapped"
 	"github.com/lidofinance/dc4bc/client/api/dto"
+	"github.com/lidofinance/dc4bc/client/modules/keystore"
 	"github.com/lidofinance/dc4bc/client/services/node"
 	"github.com/lidofinance/dc4bc/client/types"
+	"github.com/lidofinance/dc4bc/fsm/types/requests"
 	"github.com/lidofinance/dc4bc/storage"
 )
 
 type reinitStats struct {
-	Ops, Scenarios, Reinits, HashEdits, HashEditKinds int
-	ReinitCrashEffects, ReinitCrashRuns, LateForged   int
-	OutcomeHist                                       map[string]int
-	Monitors, Notes, Samples                          []string
+	Ops, Scenarios, Reinits, HashEdits, HashEditKinds               int
+	ReinitCrashEffects, ReinitCrashRuns, LateForged, RogueProposals int
+	OutcomeHist                                                     map[string]int
+	Monitors, Notes, Samples                                        []string
 }
 
 type reinitRun struct {
@@ -119,6 +121,19 @@ func (r *reinitRun) scenario(outDir string, n, t int, interleave, junk, adapt, b
 		forged, _ := json.Marshal(map[string]interface{}{"ParticipantId": 1 % n, "CreatedAt": "2023-01-01T00:00:00Z"})
 		a.nodes[0].stg.Send(storage.Message{ID: "forged-1", DkgRoundID: round, Event: "event_sig_proposal_decline_by_participant", Data: forged,
 			Signature: bytes.Repeat([]byte{7}, 64), SenderAddr: a.nodes[1%n].name})
+		// … and a second opening proposal under the SAME round id, from an outsider, naming only the first participant and
+		// a stranger (opening proposals are not signed; every node refuses it: the round is open already). The participants
+		// of the re-initialised round are those of the proposal that opened it
+		if pk0, err := a.nodes[0].air.GetPubKey().MarshalBinary(); err == nil {
+			stranger := keystore.NewKeyPair()
+			rogue := requests.SignatureProposalParticipantsListRequest{SigningThreshold: 2, CreatedAt: time.Now(), Participants: []*requests.SignatureProposalParticipantsEntry{
+				{Username: a.nodes[0].name, PubKey: a.nodes[0].kp.Pub, DkgPubKey: pk0},
+				{Username: "somebody_else", PubKey: stranger.Pub, DkgPubKey: pk0}}}
+			if bz, err := json.Marshal(rogue); err == nil {
+				a.nodes[0].stg.Send(storage.Message{ID: "rogue-proposal", DkgRoundID: round, Event: "event_sig_proposal_init", Data: bz, SenderAddr: "somebody_else"})
+				r.st.RogueProposals++
+			}
+		}
 	}
 	rngPump := rand.New(rand.NewSource(r.rng.Int63()))
 	if !junk {
